@@ -1,91 +1,164 @@
-(** C14 — proofs about IdEq.identifier_eq (eval.c sexp_identifier_eq_op): an auxiliary keyword imported
-    under another name (rename, prefix, renamed export) IS that keyword for every macro that matches it
-    as a literal, because literal matching compares binding CELLS and Env.env_import shares the
-    exporter's cell. *)
+(** C14 — proofs about IdEq.identifier_eq (eval.c sexp_identifier_eq_op, strict build, repaired): an
+    auxiliary keyword imported under another name (rename, prefix, renamed export) IS that keyword for
+    every macro that matches it as a literal, because literal matching compares binding CELLS and
+    Env.env_import shares the exporter's cell; the function is exactly R7RS 4.3.2's literal matching; and
+    merely referring to an undefined variable never changes what matches (refuted for the pinned code). *)
 From Coq Require Import String List Bool Arith.
 From ChibiV Require Import C14.Spec C14.Env C14.EnvProofs C14.IdEq.
 Import ListNotations.
 Local Open Scope string_scope.
 
-(** two identifiers denoting the same binding cell through different visible names are identifier=? *)
-Theorem same_cell_identifier_eq_proof plain e1 a e2 b c :
-  env_cell e1 a = Some c -> env_cell e2 b = Some c -> identifier_eq plain e1 a e2 b = true.
-Proof. intros H1 H2. unfold identifier_eq. rewrite H1, H2, Nat.eqb_refl. reflexivity. Qed.
+Lemma live_cell_some undef e a c : live_cell undef e a = Some c <-> bound_to undef e a c.
+Proof.
+  unfold live_cell, bound_to. destruct (env_cell e a) as [c'|].
+  - destruct (undef c') eqn:Hu; split.
+    + discriminate.
+    + intros [[= ->] H]. congruence.
+    + intros [= ->]. split; [reflexivity | exact Hu].
+    + intros [[= ->] _]. reflexivity.
+  - split; [discriminate | intros [H _]; discriminate].
+Qed.
+
+Lemma live_cell_none undef e a : live_cell undef e a = None <-> unbound_in undef e a.
+Proof.
+  unfold live_cell, unbound_in. destruct (env_cell e a) as [c'|].
+  - destruct (undef c') eqn:Hu; split.
+    + intros _ c [= <-]. exact Hu.
+    + reflexivity.
+    + discriminate.
+    + intro H. specialize (H c' eq_refl). congruence.
+  - split; [intros _ c H; discriminate | reflexivity].
+Qed.
+
+(** sexp_identifier_eq_op (repaired) is exactly R7RS 4.3.2's literal matching, for ALL environments,
+    names and sets of undefined cells *)
+Theorem identifier_eq_is_r7rs_literal_match_proof undef e1 a e2 b :
+  identifier_eq undef e1 a e2 b = true <-> r7rs_literal_match undef e1 a e2 b.
+Proof.
+  unfold identifier_eq, r7rs_literal_match.
+  destruct (live_cell undef e1 a) as [c1|] eqn:H1, (live_cell undef e2 b) as [c2|] eqn:H2.
+  - apply live_cell_some in H1. apply live_cell_some in H2. split.
+    + intro H. apply Nat.eqb_eq in H. subst c2. left. exists c1. split; assumption.
+    + intros [[c [[Hc1 _] [Hc2 _]]] | [Hu _]].
+      * destruct H1 as [H1 _], H2 as [H2 _]. rewrite Hc1 in H1. rewrite Hc2 in H2.
+        injection H1 as <-. injection H2 as <-. apply Nat.eqb_refl.
+      * destruct H1 as [H1 Hn]. specialize (Hu c1 H1). congruence.
+  - apply live_cell_some in H1. apply live_cell_none in H2. split; [discriminate|].
+    intros [[c [_ [Hc2 Hn]]] | [Hu _]].
+    + specialize (H2 c Hc2). congruence.
+    + destruct H1 as [H1 Hn]. specialize (Hu c1 H1). congruence.
+  - apply live_cell_none in H1. apply live_cell_some in H2. split; [discriminate|].
+    intros [[c [[Hc1 Hn] _]] | [_ [Hu _]]].
+    + specialize (H1 c Hc1). congruence.
+    + destruct H2 as [H2 Hn]. specialize (Hu c2 H2). congruence.
+  - apply live_cell_none in H1. apply live_cell_none in H2. split.
+    + intro H. apply String.eqb_eq in H. right. repeat split; assumption.
+    + intros [[c [[Hc1 Hn] _]] | [_ [_ ->]]].
+      * specialize (H1 c Hc1). congruence.
+      * apply String.eqb_refl.
+Qed.
+
+(** two identifiers denoting the same (defined) binding cell through different visible names are identifier=? *)
+Theorem same_cell_identifier_eq_proof undef e1 a e2 b c :
+  env_cell e1 a = Some c -> env_cell e2 b = Some c -> undef c = false -> identifier_eq undef e1 a e2 b = true.
+Proof.
+  intros H1 H2 Hu. unfold identifier_eq, live_cell. rewrite H1, H2, Hu. apply Nat.eqb_refl.
+Qed.
 
 (** conversely: identifiers with DIFFERENT names are identifier=? only through one shared cell *)
-Theorem different_names_need_one_cell_proof plain e1 a e2 b :
-  a <> b -> identifier_eq plain e1 a e2 b = true ->
-  exists c, env_cell e1 a = Some c /\ env_cell e2 b = Some c.
+Theorem different_names_need_one_cell_proof undef e1 a e2 b :
+  a <> b -> identifier_eq undef e1 a e2 b = true ->
+  exists c, env_cell e1 a = Some c /\ env_cell e2 b = Some c /\ undef c = false.
 Proof.
-  intros Hab H. unfold identifier_eq in H.
-  assert (Hn : String.eqb a b = false) by (apply String.eqb_neq; exact Hab).
-  rewrite Hn in H. cbn [andb] in H.
-  destruct (env_cell e1 a) as [c1|], (env_cell e2 b) as [c2|]; try discriminate.
-  rewrite orb_false_r in H. apply Nat.eqb_eq in H. subst c2. exists c1. split; reflexivity.
+  intros Hab H. apply identifier_eq_is_r7rs_literal_match_proof in H.
+  destruct H as [[c [[H1 Hu] [H2 _]]] | [_ [_ Heq]]].
+  - exists c. repeat split; assumption.
+  - contradiction.
 Qed.
 
-(** for syntax (keywords are macros: not [plain]) identifier=? is EXACTLY "same binding cell",
-    whatever the two names are: the non-strict top-level rule never applies *)
-Theorem keyword_identifier_eq_exact_proof plain e1 a e2 b c2 :
-  env_cell e2 b = Some c2 -> plain c2 = false ->
-  identifier_eq plain e1 a e2 b = match env_cell e1 a with Some c1 => Nat.eqb c1 c2 | None => false end.
+(** against an identifier that has a binding (every keyword has: keywords are macros), identifier=? is
+    EXACTLY "same binding cell", whatever the two names are *)
+Theorem keyword_identifier_eq_exact_proof undef e1 a e2 b c2 :
+  env_cell e2 b = Some c2 -> undef c2 = false ->
+  identifier_eq undef e1 a e2 b = match live_cell undef e1 a with Some c1 => Nat.eqb c1 c2 | None => false end.
 Proof.
-  intros H2 Hp. unfold identifier_eq. rewrite H2.
-  destruct (env_cell e1 a) as [c1|].
-  - rewrite Hp, andb_false_r, orb_false_r. reflexivity.
-  - rewrite Hp, andb_false_r. reflexivity.
+  intros H2 Hu. unfold identifier_eq.
+  assert (Hl : live_cell undef e2 b = Some c2) by (unfold live_cell; rewrite H2, Hu; reflexivity).
+  rewrite Hl. destruct (live_cell undef e1 a); reflexivity.
 Qed.
 
-(** the R7RS reading (same binding, or both unbound and the same name) implies chibi's *)
-Theorem same_binding_identifier_eq_proof plain e1 a e2 b :
-  same_binding e1 a e2 b = true -> identifier_eq plain e1 a e2 b = true.
+(** when no cell is undefined the function is the executable SPEC [same_binding] *)
+Theorem identifier_eq_same_binding_proof e1 a e2 b :
+  identifier_eq (fun _ => false) e1 a e2 b = same_binding e1 a e2 b.
 Proof.
-  unfold same_binding, identifier_eq.
-  destruct (env_cell e1 a) as [c1|], (env_cell e2 b) as [c2|]; try discriminate; intro H.
-  - rewrite H. reflexivity.
-  - exact H.
+  unfold identifier_eq, same_binding, live_cell.
+  destruct (env_cell e1 a), (env_cell e2 b); reflexivity.
 Qed.
 
-(** where chibi is laxer than R7RS: only two identifiers of the SAME name, neither denoting syntax *)
-Theorem identifier_eq_beyond_same_binding_proof plain e1 a e2 b :
-  identifier_eq plain e1 a e2 b = true -> same_binding e1 a e2 b = false ->
-  a = b /\ (forall c, env_cell e1 a = Some c -> plain c = true) /\ (forall c, env_cell e2 b = Some c -> plain c = true).
+(** ** references to undefined variables *)
+Lemma assoc_loc_none_frame f k : frame_cell f k = None -> assoc_loc k (f_renames f) = None /\ assoc_loc k (f_bindings f) = None.
 Proof.
-  unfold identifier_eq, same_binding.
-  destruct (env_cell e1 a) as [c1|], (env_cell e2 b) as [c2|]; intros H Hs.
-  - rewrite Hs in H. cbn [orb] in H. apply andb_true_iff in H. destruct H as [H Hp2].
-    apply andb_true_iff in H. destruct H as [Hn Hp1]. apply String.eqb_eq in Hn.
-    split; [exact Hn|]. split; intros c [= <-]; assumption.
-  - apply andb_true_iff in H. destruct H as [Hn Hp]. apply String.eqb_eq in Hn.
-    split; [exact Hn|]. split; [intros c [= <-]; exact Hp | intros c Hc; discriminate].
-  - apply andb_true_iff in H. destruct H as [Hn Hp]. apply String.eqb_eq in Hn.
-    split; [exact Hn|]. split; [intros c Hc; discriminate | intros c [= <-]; exact Hp].
-  - congruence.
+  unfold frame_cell. destruct (assoc_loc k (f_renames f)); [discriminate|]. intro H. split; [reflexivity|exact H].
+Qed.
+
+Lemma live_cell_reference undef e n fresh id :
+  undef fresh = true -> live_cell undef (reference e n fresh) id = live_cell undef e id.
+Proof.
+  intro Hu. unfold reference. destruct (env_cell e n) eqn:Hn; [reflexivity|].
+  destruct e as [|f r]; [reflexivity|].
+  cbn [env_cell] in Hn. destruct (frame_cell f n) eqn:Hf; [discriminate|].
+  apply assoc_loc_none_frame in Hf. destruct Hf as [Hr Hb].
+  unfold live_cell. cbn [env_cell]. unfold frame_cell. cbn [f_renames f_bindings assoc_loc].
+  destruct (String.eqb id n) eqn:He.
+  - apply String.eqb_eq in He. subst id. rewrite Hr, Hb, Hn, Hu. reflexivity.
+  - reflexivity.
+Qed.
+
+(** the repaired function does not depend on which undefined variables the two environments have
+    merely REFERRED to so far (in either environment, any name, any number of times) *)
+Theorem reference_does_not_change_identifier_eq_proof undef e1 a e2 b n fresh :
+  undef fresh = true ->
+  identifier_eq undef (reference e1 n fresh) a e2 b = identifier_eq undef e1 a e2 b /\
+  identifier_eq undef e1 a (reference e2 n fresh) b = identifier_eq undef e1 a e2 b.
+Proof.
+  intro Hu. unfold identifier_eq. rewrite !(live_cell_reference undef _ n fresh _ Hu). split; reflexivity.
+Qed.
+
+(** the pinned function does: the literal foo of a macro whose library has no foo matches the program's
+    unbound foo, until the program refers to the variable foo (F-C14-3) *)
+Theorem pinned_identifier_eq_depends_on_references_refuted_proof :
+  ~ (forall e1 a e2 b n fresh,
+       identifier_eq_pinned (reference e1 n fresh) a e2 b = identifier_eq_pinned e1 a e2 b).
+Proof.
+  intro H. specialize (H [empty_frame] "foo" [empty_frame] "foo" "foo" 5). vm_compute in H. discriminate.
 Qed.
 
 (** composition with import_binds_exporters_cell: after sexp_env_import_op delivered (n . m), the
     importer's identifier n is identifier=? to the exporter's identifier m — e.g. n = otherwise,
-    m = else: a renamed import of else IS else (and to nothing else that is syntax: second part) *)
-Theorem renamed_import_is_the_keyword_proof plain to from ids immutp n m c :
-  to <> [] -> In (n, m) ids -> (forall m', In (n, m') ids -> m' = m) -> env_cell from m = Some c ->
-  identifier_eq plain (env_import to from (Some ids) immutp) n from m = true /\
-  (forall e2 b c2, env_cell e2 b = Some c2 -> plain c2 = false ->
-     identifier_eq plain (env_import to from (Some ids) immutp) n e2 b = Nat.eqb c c2).
+    m = else: a renamed import of else IS else (and to nothing else that has a binding: second part) *)
+Theorem renamed_import_is_the_keyword_proof undef to from ids immutp n m c :
+  to <> [] -> In (n, m) ids -> (forall m', In (n, m') ids -> m' = m) -> env_cell from m = Some c -> undef c = false ->
+  identifier_eq undef (env_import to from (Some ids) immutp) n from m = true /\
+  (forall e2 b c2, env_cell e2 b = Some c2 -> undef c2 = false ->
+     identifier_eq undef (env_import to from (Some ids) immutp) n e2 b = Nat.eqb c c2).
 Proof.
-  intros Hto Hin Hf Hc.
+  intros Hto Hin Hf Hc Hu.
   pose proof (import_binds_exporters_cell_proof to from ids immutp n m c Hto Hin Hf Hc) as Hi.
   split.
-  - exact (same_cell_identifier_eq_proof plain _ n from m c Hi Hc).
-  - intros e2 b c2 H2 Hp. rewrite (keyword_identifier_eq_exact_proof plain _ n e2 b c2 H2 Hp), Hi. reflexivity.
+  - exact (same_cell_identifier_eq_proof undef _ n from m c Hi Hc Hu).
+  - intros e2 b c2 H2 Hp. rewrite (keyword_identifier_eq_exact_proof undef _ n e2 b c2 H2 Hp).
+    unfold live_cell. rewrite Hi, Hu. reflexivity.
 Qed.
 
-(** non-vacuity: else imported as otherwise next to an unrelated binding named else *)
+(** non-vacuity: else imported as otherwise next to an unrelated binding named else; cell 9 is undefined *)
 Example renamed_else_example :
   let base := [{| f_renames := []; f_bindings := [("else", 1); ("=>", 2)]; f_immutable := false |}] in
-  let prog := env_import [{| f_renames := []; f_bindings := [("else", 7)]; f_immutable := false |}] base (Some [("otherwise", "else"); ("then", "=>")]) true in
-  let plain := fun c => Nat.eqb c 7 in
-  identifier_eq plain prog "otherwise" base "else" = true /\
-  identifier_eq plain prog "else" base "else" = false /\
-  identifier_eq plain prog "then" base "else" = false /\
-  identifier_eq plain prog "then" base "=>" = true.
+  let prog := env_import [{| f_renames := []; f_bindings := [("else", 7); ("foo", 9)]; f_immutable := false |}] base (Some [("otherwise", "else"); ("then", "=>")]) true in
+  let undef := fun c => Nat.eqb c 9 in
+  identifier_eq undef prog "otherwise" base "else" = true /\
+  identifier_eq undef prog "else" base "else" = false /\
+  identifier_eq undef prog "then" base "else" = false /\
+  identifier_eq undef prog "then" base "=>" = true /\
+  identifier_eq undef prog "foo" base "foo" = true /\
+  identifier_eq_pinned prog "foo" base "foo" = false.
 Proof. vm_compute. repeat split. Qed.
